@@ -175,6 +175,11 @@ def wl_cases(shard: dict, tier: str):
             for cn in ('E3', 'I0'):
                 for ocs in (vrl, 2 ** 16):
                     yield {'vrl': vrl, 'recs': [[cn, L, L % 5]], 'ocs': ocs}
+        if vrl in (20, 64, 128):
+            # one record of a thousand and more segments
+            for nseg in (990, 2500):
+                for r in (0, 5):
+                    yield {'vrl': vrl, 'recs': [['I1', nseg * cap + r, r % 5]], 'ocs': 2 ** 16}
         if vrl <= 128 or vrl in SPECIAL_VRLS:
             pw = pair_window(max(cap, 24))
             for a in pw:
